@@ -373,8 +373,10 @@ def known_construct(ctx, chain, cfgs):
         if e.get("status") != "known":
             continue
         m = e.get("match", {})
-        if "configs_containing" in m and not all(m["configs_containing"] in c for c in cfgs):
-            continue
+        if "configs_containing" in m:
+            alts = m["configs_containing"] if isinstance(m["configs_containing"], list) else [m["configs_containing"]]
+            if not all(any(a in c for a in alts) for c in cfgs):
+                continue
         if "pred" in m:
             if KNOWN_PREDS[m["pred"]](chain):
                 return e["id"]
